@@ -495,8 +495,12 @@ func (i *interpreter) index(idx value, n int) int {
 	if s, ok := idx.(*Sym); ok {
 		// in range?
 		w := s.t.sort.Width()
-		inRange := i.tc.Mk("bvult", SBool, s.t, i.tc.Const(s.t.sort, uint64(n)))
-		_ = w
+		var inRange *Term
+		if w < 64 && uint64(n) > mask(w) {
+			inRange = i.tc.Bool(true) // every value of the index type is in range
+		} else {
+			inRange = i.tc.Mk("bvult", SBool, s.t, i.tc.Const(s.t.sort, uint64(n)))
+		}
 		if !i.branch(unterm(inRange, types.Bool)) {
 			panic(targetPanic{i.runtimeError(fmt.Sprintf("index out of range [sym] with length %d", n))})
 		}
